@@ -329,7 +329,12 @@ mutual
     | .test _ e args, t => trackArgs args (trackExpr e t)
     | .getattr e _, t => trackExpr e t
     | .getitem e i, t => trackExpr i (trackExpr e t)
-    | .call f args, t => trackArgs args (trackExpr f t)
+    | .call f args, t =>
+      -- `tracker_visit_call`: `super()` and `self.block()` look up neither `super` nor `self`
+      match f with
+      | .var "super" => trackArgs args t
+      | .getattr (.var "self") _ => trackArgs args t
+      | f => trackArgs args (trackExpr f t)
     | .list items, t => trackList items t
     | .map kvs, t => trackPairs kvs t
   def trackChain : List (CmpOp × Expr) → Tracker → Tracker
@@ -390,7 +395,9 @@ mutual
     | .withS binds body, t => (trackBlock body (trackBinds binds t.push)).pop
     | .filterBlock fs body, t => trackFilterApps fs (trackBlock body t.push).pop
     | .macroS name params defaults body _, t =>
-      (trackBlock body (trackParams params defaults (((t.assign name).push).assign "caller"))).pop
+      -- the values a macro refers to are captured when it is declared, which is before its own
+      -- name is assigned: the name is assigned after the walk
+      ((trackBlock body (trackParams params defaults (t.push.assign "caller"))).pop).assign name
     | .callBlock callee args params defaults body _, t =>
       let t := trackArgs args (trackExpr callee t)
       (trackBlock body (trackParams params defaults (t.push.assign "caller"))).pop
